@@ -161,6 +161,8 @@ def structured_states(at, V, records, index, rid, cov):
     """Initial sizes entered in the databook for models with timed compartments and junctions (engine worlds, no injected state): the
     sizes at the first time point - summed over the elapsed-time bins, and after the junctions have been emptied into their
     destinations - reproduce the databook totals; people entered into a junction that has nowhere to go are refused."""
+    import sciris as sc
+
     from . import worlds as WD
     from atomica.model import BadInitialization
 
@@ -212,6 +214,27 @@ def structured_states(at, V, records, index, rid, cov):
         records.append(dict(id=rid, kind="init", outcome=outcome, members=members, used=[True] * len(members), b=b, x=FX.fixseq(x)))
         index[rid] = dict(structure=label["structure"], case=label, b=b, outcome=outcome, x=x, error=label.get("error", ""))
         rid += 1
+        n += 1
+    # a databook quantity used for initialization that has no value at all: there is nothing to match, the run must be refused
+    from atomica.model import BadInitialization as _BI
+
+    byid = {s_["id"]: s_ for s_ in STRUCTS}
+    for sid, missing in (("nested", "ca"), ("direct", "cb")):
+        s_ = byid[sid]
+        Fw, D = framework(at, s_)
+        ps = at.ParameterSet(Fw, sc.dcp(D))
+        pop = ps.pop_names[0]
+        for r_ in s_["rows"]:
+            ts = ps.pars[r_[0]].ts[pop]
+            ts.t, ts.vals, ts.assumption = [], [], (None if r_[0] == missing else 5.0 * len(r_[1]))
+        try:
+            r = at.run_model(at.ProjectSettings(2000, 2001, 0.25), Fw, ps)
+            x0 = [float(r.model.pops[0].get_comp(c_).vals[0]) for c_ in COMPS]
+            V.violation("C07 a missing initialization value was not refused", dict(structure=sid, missing=missing, x=[str(v) for v in x0]))
+        except _BI:
+            pass
+        except Exception as ex:
+            V.violation("C07 a missing initialization value was not refused (%s)" % type(ex).__name__, dict(structure=sid, missing=missing, error=str(ex)[:200]))
         n += 1
     cov["structured_initial_states"] = n
     return rid
